@@ -17,7 +17,10 @@ import hashlib
 import sys
 import types
 
-EXCLUDED = ('_defaultName', 'errmsg', 'customName', '_cached_name')     # display-name caches (feed error-message text only)
+# Not part of the snapshot: display-name caches (feed error-message text only) and the lazily compiled pattern of a Regex
+# element (`re`, `_re`, `re_match`, `_may_return_empty` are computed on first use from the element's own, unchanged
+# pattern text — which documents happen to reach a Regex element first decides *when* they appear, never their value).
+EXCLUDED = ('_defaultName', 'errmsg', 'customName', '_cached_name', 're', '_re', 're_match', '_may_return_empty')
 
 
 def _pydbml_modules():
